@@ -35,6 +35,12 @@ var OCSPBehaviours = []string{
 	"other-serial", "sibling-good-replay",
 	// stale
 	"expired", "no-nextupdate", "expired-revoked",
+	// stale, in ways that meet the signing time: a next-update that has passed
+	// but lies AFTER the signing time; expired / next-update-less Revoked answers
+	// whose invalidity date would excuse them
+	"expired-after-st", "expired-after-st-revoked-inv-after", "expired-revoked-inv-after", "no-nextupdate-revoked-inv-after",
+	// status Unknown (and Good) carrying an invalidity date after the signing time
+	"unknown-status-inv-after", "good-inv-after",
 	// malformed
 	"empty", "garbage", "truncated", "trailing", "oversize", "wrong-type", "critical-ext",
 	"st-malformed", "st-internal", "st-trylater", "st-sigrequired", "st-unauthorized",
@@ -116,8 +122,10 @@ func OCSPClass(beh string, withST bool, issuerSelfSigned bool) string {
 			return ClsOK
 		}
 		return ClsRevoked
-	case "unknown-status":
+	case "unknown-status", "unknown-status-inv-after":
 		return ClsUnknown
+	case "good-inv-after":
+		return ClsOK
 	}
 	return ClsN
 }
@@ -325,6 +333,27 @@ func (k *Kit) build(beh string) netsim.Reply {
 		r := base()
 		s := k.single(pki.OCSPGood)
 		s.NextUpdate = time.Time{}
+		r.Singles = []pki.OCSPSingle{s}
+		return body(r)
+	case "expired-after-st", "expired-after-st-revoked-inv-after", "expired-revoked-inv-after", "no-nextupdate-revoked-inv-after", "unknown-status-inv-after", "good-inv-after":
+		r := base()
+		s := k.single(pki.OCSPGood)
+		recently := SigningTime.Add(24 * time.Hour) // after the signing time, years before any run date
+		far := time.Date(2095, 1, 1, 0, 0, 0, 0, time.UTC)
+		switch beh {
+		case "expired-after-st":
+			s.NextUpdate = recently
+		case "expired-after-st-revoked-inv-after":
+			s.Status, s.Reason, s.NextUpdate, s.Invalidity = pki.OCSPRevoked, 1, recently, &far
+		case "expired-revoked-inv-after":
+			s.Status, s.Reason, s.NextUpdate, s.Invalidity = pki.OCSPRevoked, 1, pki.Past.Add(time.Hour), &far
+		case "no-nextupdate-revoked-inv-after":
+			s.Status, s.Reason, s.NextUpdate, s.Invalidity = pki.OCSPRevoked, 1, time.Time{}, &far
+		case "unknown-status-inv-after":
+			s.Status, s.Invalidity = pki.OCSPUnknown, &far
+		case "good-inv-after":
+			s.Invalidity = &far
+		}
 		r.Singles = []pki.OCSPSingle{s}
 		return body(r)
 	case "empty":
